@@ -170,6 +170,29 @@ static Result run_c09(const Case &c) {
                 if (o.rc != 0) r.fail("reconstruct rejected (rc=" + std::to_string(o.rc) + ") fragments whose headers the reference accepts");
             } else if (o.rc != -E_BADHEADER) r.fail("reconstruct returned " + std::to_string(o.rc) + " for an unacceptable header (expected -EBADHEADER)");
         }
+        // the same list with one untouched fragment withheld: the library cannot take its shortcuts (all data present /
+        // destination supplied) and has to decode for real - the verdict on the headers must be the same
+        if (c.get("withhold", 0) && b.g.backend != ref::B_NULL && ref::tolerance(b.g) >= 1 && n >= 2) {
+            int wh = (int)((fi + 1 + (c.get("withhold") - 1) % (n - 1)) % n);      // never the mutated one
+            std::vector<const std::vector<uint8_t> *> frs2; uint64_t pm = 0;
+            for (size_t j = 0; j < frs.size(); j++) if (frs[j] != &comp[wh]) frs2.push_back(frs[j]);
+            for (int i = 0; i < n; i++) if (i != wh) pm |= 1ull << i;
+            Config g8 = b.g; if (ref::is_isa(g8.backend)) g8.w = 8;
+            bool demand = !(b.g.backend == ref::B_ISA_V && !ref::isa_first_k_invertible(g8, pm));
+            {
+                FragSet fs; fs.build(frs2, {});
+                DecodeOut d = decode(b.in->desc, fs, b.s.fraglen, 0);
+                if (cons) { if (d.rc == 0 && d.out != b.s.data) r.fail("decode (one fragment withheld) returned wrong data"); if (d.rc != 0 && demand) r.fail("decode (one fragment withheld) rejected (rc=" + std::to_string(d.rc) + ") a stripe whose headers the reference accepts"); }
+                else if (d.rc != -E_BADHEADER) r.fail("decode (one fragment withheld) returned " + std::to_string(d.rc) + " for a stripe containing an unacceptable header (expected -EBADHEADER)");
+            }
+            {
+                FragSet fs; fs.build(frs2, {});
+                ReconOut o = reconstruct(b.in->desc, fs, b.s.fraglen, wh);
+                if (cons) { if (o.rc == 0 && f == orig && (o.out.size() != b.s.frags[wh].size() || memcmp(o.out.data() + 80, b.s.frags[wh].data() + 80, o.out.size() - 80))) r.fail("reconstruct of the withheld fragment returned a different payload"); if (o.rc != 0 && demand) r.fail("reconstruct of a withheld fragment rejected (rc=" + std::to_string(o.rc) + ") fragments whose headers the reference accepts"); }
+                else if (o.rc != -E_BADHEADER) r.fail("reconstruct of a withheld fragment returned " + std::to_string(o.rc) + " for an unacceptable header (expected -EBADHEADER)");
+            }
+            r.cls(b.s.data.empty() ? "withheld_fragment_empty_object" : "withheld_fragment");
+        }
         r.cls("consumers_called");
     } else r.cls("consumers_filtered");
     bool touches_gate = false;
@@ -199,6 +222,7 @@ static Case gen_c09() {
     c.set("reseal_arg", pick(0, 4 * 255 - 1));
     c.set("rot", pick(0, 31));
     if (coin(1, 4)) c.set("pad", coin() ? pick(1, 8) : pick(20, 70));
+    if (coin(1, 3)) c.set("withhold", pick(1, 31));
     if (coin(1, 3)) {
         uint32_t running = liberasurecode_get_version();
         int64_t v = coin(2, 3) ? (((int64_t)1 << 16) | (pick(0, 1) << 8) | pick(0, 9)) : (int64_t)pick(ref::V120, running);
@@ -225,6 +249,7 @@ static void sweep_c09() {
             c.set("frag", frag); c.set("legacy", legacy);
             c.setl("ops", {M_FLIP, bit, 0}); c.set("reseal", reseal); c.set("reseal_arg", 0);
             c.set("ro", (counter / 3) & 1);
+            if (counter % 5 == 0) c.set("withhold", 1 + counter % 7);
             sweep_case(c, run_c09);
         }
     stats().exhaustive = true;
@@ -289,12 +314,15 @@ static Result run_c10(const Case &c) {
     int kind = (int)c.get("ckind");
     int64_t a = c.get("carg"), v = c.get("cval");
     if (paylen == 0 && kind >= 1 && kind <= 3) kind = 0;
+    if (paylen == 0 && kind == 7) kind = 6;
     switch (kind) {
     case 1: f[80 + (a % (paylen * 8)) / 8] ^= (uint8_t)(1u << (a % 8)); break;
     case 2: { size_t off = a % paylen, len = 1 + v % 17; uint64_t sd = (uint64_t)v; for (size_t i = off; i < off + len && i < paylen; i++) f[80 + i] ^= (uint8_t)(1 + splitmix64(sd) % 255); break; }
     case 3: f[80 + a % paylen] = (uint8_t)v; break;
     case 4: put32(&f[ref::O_CHK], legacy ? ref::crc32_std(pay, paylen) : ref::crc32_legacy(pay, paylen)); ref::reseal(f.data()); break;   // the other variant
     case 5: put32(&f[ref::O_CHK], (uint32_t)v * 2654435761u + (uint32_t)a); ref::reseal(f.data()); break;
+    case 6: f[ref::O_MISM] = (uint8_t)(1 + v % 255); ref::reseal(f.data(), legacy); break;     // the STORED flag is not an input of the verdict for CRC32 fragments: it is recomputed
+    case 7: f[ref::O_MISM] = (uint8_t)(1 + v % 255); ref::reseal(f.data(), legacy); if (paylen) f[80 + (a % (paylen * 8)) / 8] ^= (uint8_t)(1u << (a % 8)); break;
     }
     uint32_t stored = get32(&f[ref::O_CHK]);
     bool want_mismatch = ref::crc32_std(f.data() + 80, paylen) != stored && ref::crc32_legacy(f.data() + 80, paylen) != stored;
@@ -358,7 +386,7 @@ static Case gen_c10() {
     c.set("validator_ct", weighted({3, 1, 0, 1}));          // 0: the writer's own descriptor, 1: a NONE-configured one, 3: an MD5-configured one
     c.set("writer_ct", weighted({3, 2, 0, 1}));        // 0: same instance, 1: NONE-configured writer, 3: MD5-configured writer
     { Config g = cfg_from(c); int fi = (int)(c.get("frag") % g.n()); if (coin(1, 5) && fi < g.k) c.set("crc0", fi + 1); }
-    c.set("ckind", weighted({2, 4, 2, 2, 2, 1}));
+    c.set("ckind", weighted({2, 4, 2, 2, 2, 1, 2, 1}));
     c.set("carg", pick(0, 1 << 24));
     c.set("cval", pick(0, 1 << 24));
     c.set("ro", coin() ? 1 : 0);       // inputs on read-only pages (a query may not write into a fragment, not even temporarily)
@@ -494,7 +522,7 @@ static Case gen_c11() {
 }
 
 // ============================================================================================ C12
-enum { E_NONE = 0, E_IDX, E_BEID, E_BEVER, E_LIBVER, E_TWIN, E_PAYLOAD, E_STALE, E_FLAG, E_MAGIC };
+enum { E_NONE = 0, E_IDX, E_BEID, E_BEVER, E_LIBVER, E_TWIN, E_PAYLOAD, E_STALE, E_FLAG, E_MAGIC, E_PAIR };
 static Result run_c12(const Case &c) {
     Result r;
     Config gi = cfg_from(c, "i_"), gj = cfg_from(c);
@@ -539,6 +567,12 @@ static Result run_c12(const Case &c) {
     case E_TWIN: make_twin(f.data()); break;
     case E_PAYLOAD: if (paylen) f[80 + (a % (paylen * 8)) / 8] ^= (uint8_t)(1u << (a % 8)); break;
     case E_STALE: f[(a >> 8) % 59] ^= (uint8_t)(1 + a % 255); break;
+    case E_PAIR: {      // two fields edited together (each edit alone is covered above): backend id AND backend version, or index AND id
+        const uint32_t vers[] = {0, ref::backend_version(ref::B_NULL), ref::backend_version(gi.backend), (uint32_t)a * 2654435761u};
+        if ((a >> 4) & 1) { f[ref::O_BEID] = (uint8_t)((a >> 8) % 3 == 0 ? 0 : (a >> 8)); put32(&f[ref::O_BEVER], vers[(a >> 16) % 4]); }
+        else { put32(&f[ref::O_IDX], (uint32_t)((a >> 8) % (ni + 2))); f[ref::O_BEID] = (uint8_t)((a >> 16) % 9); }
+        if ((a >> 5) & 1) put32(&f[ref::O_BEVER], 0);
+        ref::reseal(f.data(), (a & 1) != 0); resealed_edit = true; break; }
     case E_MAGIC: { const uint32_t vals[] = {0, bswap32(ref::MAGIC), ref::MAGIC ^ 1u, (uint32_t)a}; put32(&f[ref::O_MAGIC], vals[(a >> 8) % 4]); break; }    // outside the metadata checksum: nothing to re-seal
     case E_FLAG: if (f[ref::O_CT] == 2) { f[ref::O_MISM] = 1; ref::reseal(f.data()); resealed_edit = true; } break;   // recomputed by the query when CRC32
     }
@@ -613,7 +647,7 @@ static Case gen_c12() {
         else if (gj.backend != ref::B_XOR) { gi.k = (int)pick(1, 16); gi.m = (int)pick(1, 16); gi.hd = gi.m; }   // same back end, other shape
     }
     cfg_to(c, gi, "i_");
-    c.set("edit", weighted({1, 5, 3, 3, 3, 1, 2, 2, 1, 2}));
+    c.set("edit", weighted({1, 5, 3, 3, 3, 1, 2, 2, 1, 2, 4}));
     c.set("md_form", weighted({3, 1, 1}));
     c.set("earg", pick(0, 1ll << 31));
     c.set("wenv", weighted({6, 1, 1, 3, 1}));
